@@ -620,6 +620,8 @@ class VUndef(V):
 def typeof(v):
     if isinstance(v, (VInt, VReal, VBool, VStr, VNone)):
         return v.t
+    if type(v).__name__ == "VDyn":
+        return v.t
     if isinstance(v, (VUn, VOpt, VRec, VTuple, VSeq, VMap, VSet, VPath, VDRec)):
         return v.t
     if isinstance(v, VDictRec) and v.mt is not None:
@@ -641,7 +643,13 @@ def _eta(dt, parts):
 
 
 def unwrap(v, t):
-    """V -> z3 expression of sort t.sort() (with coercions int->float, x->Optional[x])."""
+    """V -> z3 expression of sort t.sort() (with coercions int->float, x->Optional[x], JSON-like -> Dyn)."""
+    if t.name == "Dyn":
+        from .dyn import to_dyn
+        return to_dyn(v)
+    if t.name == "DKey":
+        from .dyn import key_code
+        return key_code(v)
     if getattr(t, "coerce_in", None) is not None:
         # dynamically typed target (Json): python values are injected
         r = t.coerce_in(v)
@@ -826,6 +834,8 @@ class TypeEnv:
     def __init__(self):
         self.named = {"int": TInt, "float": TReal, "Real": TReal, "bool": TBool, "str": TStr,
                       "None": TNone, "Path": TPath}
+        from .dyn import TDyn
+        self.named["Dyn"] = TDyn
 
     def declare(self, name, t):
         self.named[name] = t
